@@ -166,7 +166,8 @@ static int _serial_setup(char *devname, int fd, int baud, int databits,
 
     tio.c_oflag &= ~OPOST; /* turn off post-processing of output */
     tio.c_iflag = tio.c_lflag = 0;
-
+    tio.c_cc[VMIN] = 1;    /* non-canonical mode: a single byte makes the */
+    tio.c_cc[VTIME] = 0;   /*  descriptor readable, whatever was set before */
 
     if (tcsetattr(fd, TCSANOW, &tio) < 0) {
         err(true, "%s: error setting serial attributes", devname);
